@@ -478,7 +478,10 @@ def edit_data(g, what, k):
             g.add((subj, EX.tag, Literal("t%d" % i)))
     elif what == "flag":
         g.remove((subj, EX.flag, None))
-        g.add((subj, EX.flag, Literal(["true", "1", "false", "yes"][k % 4], datatype=XSD.boolean)))
+        # only lexical forms whose in-memory Literal is a function of (lexical form, datatype): rdflib turns "yes"^^xsd:boolean into
+        # an object that prints as "false" but remembers being ill-typed, and that state does not survive the pickle that
+        # hands the call to the fresh process (the two calls would not have equal arguments)
+        g.add((subj, EX.flag, Literal(["true", "1", "false", "0"][k % 4], datatype=XSD.boolean)))
 
 
 def edit_shapes(g, what, k):
